@@ -6,7 +6,8 @@ from debian_inspector import package
 
 ID = 'C17'
 LEVEL = 'proof'
-THEOREMS = [('DebInspector.Thm.C17', ['Props.C17.sortA_perm', 'Props.C17.last_is_max', 'Props.C17.insertA_sorted'])]
+THEOREMS = [('DebInspector.Thm.C17', ['Props.C17.roundtrip', 'Props.C17.known_ending', 'Props.C17.accepted_fromString',
+                                      'Props.C17.sortA_perm', 'Props.C17.last_is_max', 'Props.C17.insertA_sorted'])]
 TRUSTED = [
     'Lean 4.33.0 kernel',
     'reading of the property as Props.C17.holdsOnA/B/C (spec-side file-name grammar written from the sentence, independent of the code tables)',
@@ -21,15 +22,14 @@ RULE = ('C17a: all endings x names with dots/plus x accepted versions (epochs, h
         'C17b: malformed shapes (wrong ending, 1 or 4+ parts, invalid versions, dots-only stems) and mutations of well-formed names; '
         'C17c: lists of 1-6 binary names with order-equal versions and epochs, all permutations for length <= 4. '
         'non-trivial = accepted file name / list with >= 2 distinct versions')
-TECHNIQUE = ('Lean 4 theorems for the selection (insertion sort is a permutation, last element is a maximum, groups are the distinct names) '
-             '+ executable spec evaluated on every implementation observation + correspondence with a hand model of get_nva')
-LEVEL_TEXT = ('Proved in Lean 4: the model sort is a permutation of its input, under the tuple order the last element of the sorted '
-              'list is a maximum of the version order for every list of archives of one name (last_is_max), and grouping a name-sorted list '
-              'yields each name once. The round-trip and rejection clauses are decided by the executable specification holdsOnA/holdsOnB '
-              '(written from the sentence of the property, independent of the code) evaluated on every implementation observation and by '
-              'correspondence with the hand model of get_nva over all endings, directory prefixes and malformed shapes; they are not yet theorems.')
-LEVEL_NOTE = ('Trusted: Lean kernel; axioms propext, Classical.choice, Quot.sound only for the registered theorems; the file-name '
-              'round-trip/rejection clauses rest on specification evaluation + correspondence (exploration strength), Timsort and groupby are trusted.')
+TECHNIQUE = ('Lean 4 theorems: file-name round trip for every (directory, name, accepted version, architecture, ending) (roundtrip; the suffix tuples of get_nva are regenerated and re-checked by decide per ending); '
+             'selection: insertion sort is a permutation, last element is a maximum + executable spec on every implementation observation + correspondence with the hand model of get_nva')
+LEVEL_TEXT = ('Props.C17.roundtrip: for every directory prefix, package name without underscore or slash, version that C03 says must be accepted (any epoch, hyphenated upstream, tildes, dots - including ".tar." inside the version), '
+              'architecture (binary packages) and each of the thirteen endings, the model of DebArchive.from_filename returns exactly that name, dpkg\'s decomposition of that version, that architecture and the original path '
+              '(known_ending: each ending is recognised and peeled off exactly - last dot, last underscore, last ".tar." then ".orig"/".debian" - proved per ending by decide against the regenerated tuples of get_nva; accepted_fromString from the C03 theorems). '
+              'Selection: the model sort is a permutation of its input and, under the tuple order, the last element of the sorted list is a maximum of the version order for every list of archives of one name (last_is_max). '
+              'The rejection clause (holdsOnB) and the per-name variant are decided by the executable specification on every implementation observation and by correspondence, not by theorem.')
+LEVEL_NOTE = ('Trusted: Lean kernel; axioms propext, Classical.choice, Quot.sound only; os.path.basename/splitext modelled; Timsort and groupby are trusted.')
 
 ENDINGS_BIN = ['.deb', '.udeb']
 ENDINGS_SRC = ['.dsc', '.orig.tar.gz', '.orig.tar.xz', '.orig.tar.bz2', '.orig.tar.lzma',
